@@ -179,17 +179,39 @@ class HBatch(BatchBase):
 
     def _flush(self):
         env = self.env
+        try:
+            self._flush_body()
+        except BaseException as e:
+            # whatever escapes the flush body becomes the error of every item the body has not set
+            for j in self.items:
+                if not j.is_computed():
+                    env.item_action[j.uid] = ["raised", canon(exc_key(e))]
+            raise
+
+    def _flush_body(self):
+        env = self.env
         if env.on_step is not None:
             env.on_step()
         env.events.append(["body", self.kind, self.no])
+        if self.fault == "nested":
+            # the flush body itself calls synchronously into asynq code that needs a flush of another kind
+            others = [k for k in env.kinds if k != self.kind]
+            if others:
+                env.in_nested += 1
+                probe = Rec({"id": -1 - len(env.probes), "body": []}, None, "sync")
+                env.probes.append(probe)
+                env.waits.append(probe)
+                try:
+                    probe.handle = nested_probe.asynq(env, others[0], -1 - len(env.probes))
+                    probe.handle.value()
+                finally:
+                    env.waits.pop()
+                    env.in_nested -= 1
         env.flushes.append([self.kind, self.no, [canon(i.arg) for i in self.items]])
         env.log.append(["flush", self.kind, self.no, sorted(repr(i.arg) for i in self.items)])
+        cut = len(self.items) // 2      # a raising flush body completes the first half of its items
         for n, i in enumerate(self.items):
-            if self.fault == "raise" and n >= 1:
-                # a failing flush: every item the body has not set receives the flush error
-                for j in self.items:
-                    if not j.is_computed():
-                        env.item_action[j.uid] = ["flusherr", self.kind, self.no]
+            if self.fault == "raise" and n >= cut:
                 raise env.exc(("flush", self.kind, self.no))
             env.item_action[i.uid] = i.outcome
             if i.outcome == "ok":
@@ -213,13 +235,15 @@ class HItem(BatchItemBase):
     def _done(self, _):
         self.ncomp += 1
         env = self.env
-        win = [e for e in env.events if e[0] in ("before", "after")]
-        if not win or win[-1] != ["before", self.batch.kind, self.batch.no]:
-            # completed by a direct (non-scheduler) flush, e.g. item.value(): allowed only if no scheduler window is open
-            if win and win[-1][0] == "before":
-                env.v("C05.window", "item %r completed inside another batch's flush window" % (self.uid,))
-            elif not env.direct_flush:
-                env.v("C05.window", "item %r completed outside any flush of its batch" % (self.uid,))
+        open_windows = []
+        for e in env.events:
+            if e[0] == "before":
+                open_windows.append(e[1:])
+            elif e[0] == "after" and open_windows:
+                open_windows.pop()
+        mine = [self.batch.kind, self.batch.no]
+        if mine not in open_windows and not env.direct_flush:
+            env.v("C05.window", "item %r completed outside the before/after window of its batch's flush (open: %r)" % (self.uid, open_windows))
         self.seen = ("err", self._error) if self._error is not None else ("ok", self._value)
 
 
@@ -255,7 +279,19 @@ class Env(object):
         self.delivered_multi = 0
         self.delivered_caught = 0
         self.ncands = 0
+        self.ncancelled = 0
         self.on_step = None    # C16: harness-owned thread schedule (turnstile) hooks in here
+        self.in_nested = 0     # > 0 while a flush body makes a synchronous call into asynq
+        self.probes = []
+        self.built = {}        # (tid, yid) -> the very object a yield statement yielded
+        kinds = set()
+        for t in all_tasks(prog["root"]):
+            for st_ in walk_stmts(t["body"]):
+                if st_["op"] == "yield":
+                    for leaf in walk_struct(st_["y"]):
+                        if leaf[0] == "item":
+                            kinds.add(leaf[1])
+        self.kinds = sorted(kinds)
         self.nctx_entered = 0
         self.ctx_span_flush = 0       # flushes during which >= 2 tasks were inside a recording context
         self.ov_span_flush = 0        # flushes during which >= 2 tasks held an override of the same value
@@ -497,10 +533,17 @@ def exec_block(env, rec, me, body):
             env.check_ctx_at_step(tid)
         if scheduler.get_active_task() is not me:
             env.v("C08.active", "get_active_task() is not the running task %r" % (tid,))
-        if op == "yield":
+        if op in ("yield", "reyield"):
             futs = []
             fresh = []
-            y = build(env, st["y"], futs, tid, fresh)
+            if op == "yield":
+                y = build(env, st["y"], futs, tid, fresh)
+                if "yid" in st:
+                    env.built[(tid, st["yid"])] = (y, futs)
+            else:
+                # the very same object (same list / tuple / dict / future) is yielded again
+                y, futs = env.built[(tid, st["yid"])]
+                futs = list(futs)
             rec.last = futs
             rec.yields += 1
             leave_body(env, rec)
@@ -583,6 +626,19 @@ def exec_block(env, rec, me, body):
                 env.waits.pop()
                 if scheduler.get_active_task() is not me:
                     env.v("C08.active", "get_active_task() is not task %r after its synchronous call returned" % (tid,))
+        elif op == "cancel":
+            b = env.cur.get(st["kind"])
+            if b is not None and b.items and not b.is_flushed():
+                err = env.exc(("cancel", b.kind, b.no))
+                for j in b.items:
+                    if not j.is_computed():
+                        env.item_action[j.uid] = ["raised", ["cancel", b.kind, b.no]]
+                env.direct_flush += 1
+                try:
+                    b.cancel(err)
+                finally:
+                    env.direct_flush -= 1
+                env.ncancelled += 1
         elif op == "read":
             if env.ov_span_flush:
                 env.reads_after_ov_flush += 1
@@ -649,6 +705,12 @@ def run_task(env, t):
         result(["tv", tid, digest(rec.got)])
         return
     return ["tv", tid, digest(rec.got)]
+
+
+@A()
+def nested_probe(env, kind, uid):
+    v = yield HItem(env, kind, 0, "ok", uid)
+    return v
 
 
 @A()
@@ -726,7 +788,7 @@ def run_program(prog, check_c04=False, check_c06=False, reset=True, options=None
                 held[k] = held.get(k, 0) + 1
         if any(n >= 2 for n in held.values()):
             env.ov_span_flush += 1
-        if env.yield_only:
+        if env.yield_only and not env.in_nested:
             cands = {}
             for r in list(env.recs.values()):
                 if not r.yielded or r.handle is None or r.handle.is_computed():
@@ -796,15 +858,25 @@ def run_program(prog, check_c04=False, check_c06=False, reset=True, options=None
 
 
 def event_grammar(env):
-    """C05: events are exactly before,body,after per scheduler flush (after also for hard failures)."""
+    """C05: events are exactly before,body,after per scheduler flush (after also for hard failures); a flush
+    body that calls synchronously into asynq may contain complete nested triples"""
     ev = [e for e in env.events if e[1] != "debug"]
-    i = 0
-    while i < len(ev):
-        ok = i + 2 < len(ev) and ev[i][0] == "before" and ev[i + 1] == ["body"] + ev[i][1:] and ev[i + 2] == ["after"] + ev[i][1:]
-        if not ok:
-            env.v("C05.events", "flush events are not before,body,after at position %d: %r" % (i, ev[i:i + 3]))
-            break
-        i += 3
+    stack = []
+    for i, e in enumerate(ev):
+        if e[0] == "before":
+            stack.append([e[1:], "before"])
+        elif e[0] == "body":
+            if not stack or stack[-1] != [e[1:], "before"]:
+                env.v("C05.events", "flush body of %r ran without a preceding before-flush event (events %r)" % (e[1:], ev[max(0, i - 2):i + 1]))
+                return
+            stack[-1][1] = "body"
+        else:
+            if not stack or stack[-1][0] != e[1:] or stack[-1][1] != "body":
+                env.v("C05.events", "after-flush event of %r does not close a before,body pair (events %r)" % (e[1:], ev[max(0, i - 3):i + 1]))
+                return
+            stack.pop()
+    if stack:
+        env.v("C05.events", "a before-flush event of %r was never followed by its after-flush event" % (stack[-1][0],))
 
 
 def item_checks(env, got_by_uid=None):
@@ -821,8 +893,8 @@ def item_checks(env, got_by_uid=None):
                 env.v("C05.answered", "item %r does not hold the error its flush set" % (it.uid,))
             if act == "unset" and not isinstance(it._error, AssertionError):
                 env.v("C05.answered", "item %r was left unset by its flush but is not failed with AssertionError" % (it.uid,))
-            if isinstance(act, list) and it._error is not env.excs.get(("flush", act[1], act[2])):
-                env.v("C05.answered", "item %r does not hold its batch's flush error" % (it.uid,))
+            if isinstance(act, list) and (it._error is None or canon(exc_key(it._error)) != act[1] or it._error is not it.batch._error):
+                env.v("C05.answered", "item %r does not hold its batch's flush / cancellation error" % (it.uid,))
 
 
 def trace(env):
